@@ -88,6 +88,12 @@ pub fn crit_times() -> Vec<i64> {
             v.push(hh * US_HOUR + mm * US_MIN + 30 * US_SEC);
         }
     }
+    // times of day whose microsecond count (or its distance to the next midnight) is a multiple
+    // of 2^32: a remainder narrowed to 32 bits reads as zero there
+    for k in [1i64, 20] {
+        v.push(k << 32);
+        v.push(US_DAY - (k << 32));
+    }
     v.sort();
     v.dedup();
     v
